@@ -38,6 +38,7 @@ where pseudo-parent and pseudo-children links are added to the tree.
 from typing import Dict
 from typing import Iterable
 
+import sys
 from collections import defaultdict
 from typing import List
 
@@ -527,13 +528,23 @@ def build_computation_graph(
         variables = list(variables)
         constraints = list(constraints)
 
-    roots = []
-    while len(variables) != 0:
-        root = _generate_dfs_tree(variables, constraints)
-        roots.append(root)
-        # Remove variables that are part of the tree and build another tree
-        # until there is no variable left.
-        for node in _visit_tree(root):
-            variables.remove(node.variable)
+    # The DFS traversal and the tree visit are recursive, with a depth proportional
+    # to the depth of the tree: make sure python's recursion limit is high enough
+    # for deep trees (e.g. long chains of variables).
+    needed_depth = 4 * len(variables) + 200
+    previous_limit = sys.getrecursionlimit()
+    if needed_depth > previous_limit:
+        sys.setrecursionlimit(needed_depth)
+    try:
+        roots = []
+        while len(variables) != 0:
+            root = _generate_dfs_tree(variables, constraints)
+            roots.append(root)
+            # Remove variables that are part of the tree and build another tree
+            # until there is no variable left.
+            for node in _visit_tree(root):
+                variables.remove(node.variable)
 
-    return ComputationPseudoTree(roots)
+        return ComputationPseudoTree(roots)
+    finally:
+        sys.setrecursionlimit(previous_limit)
